@@ -222,7 +222,7 @@ fn check_case(case: &Case, dir: &Path, result: &Value, res: &mut ShardResult) ->
       if same_api == Some(true) && !e.probe {
         let when = if case.while_running { "emitters-still-running" } else { "after-emitters-finished" };
         if case.chaos == "pin" {
-          res.count("pinned_emitter/cases_with_lost_event", 1);
+          res.count("pinned_emitter/lost_events_in_pinned_cases", 1);
         }
         out.push(finding("shutdown", "lost-event", &format!("{}-{}", kind, when),
           format!("{} never received event {} (thread {}, via {}) although its emit call returned before shutdown began and the same kind of event was delivered earlier",
